@@ -1,6 +1,7 @@
 """Per-property check procedures (see DESIGN.md section 5)."""
 import json
 import os
+import re
 
 import vlib
 from vlib import Check, ToolError, log
@@ -645,11 +646,11 @@ def c03(tier):
     vlib.build_harness()
     exe = vlib.build_server(False)
     seen_rules = {}
-    sets = [("MC_SplStatic_valid", ["missing=1"]), ("MC_SplStatic_body", ["missing=1"]), ("MC_SplStatic_faults", [])] if tier == "quick" else \
-           [("MC_SplStatic_valid17", ["missing=1"]), ("MC_SplStatic_valid3", ["missing=1"]), ("MC_SplStatic_body22", ["missing=1"]), ("MC_SplStatic_faults18", [])]
+    sets = [("MC_SplStatic_valid", ["missing=1"]), ("MC_SplStatic_body", ["missing=1"]), ("MC_SplStatic_faults", []), ("MC_SplStatic_faultsarr", [])] if tier == "quick" else \
+           [("MC_SplStatic_valid17", ["missing=1"]), ("MC_SplStatic_valid3", ["missing=1"]), ("MC_SplStatic_body22", ["missing=1"]), ("MC_SplStatic_faults18", []), ("MC_SplStatic_faultsarr", [])]
     for cfg, extra in sets:
         res = vlib.tlc("MC_SplStatic", cfg + ".cfg", "c03_" + cfg, timeout=6000, heap="16g")
-        vlib.require_coverage(res, ["PlanProc", "PlanDone", "Expand", "Shift", "Act"] + ([] if "body" in cfg else ["PlanType"]))
+        vlib.require_coverage(res, ["PlanProc", "PlanDone", "Expand", "Shift", "Act"] + ([] if "body" in cfg or "faultsarr" in cfg else ["PlanType"]))
         c.add_tlc(res, cfg)
         r = _tag_mode(_fe("static", res["out"], "c03_" + cfg, extra), "static")
         c.add_harness(r, cfg)
@@ -658,6 +659,11 @@ def c03(tier):
                 seen_rules[k[6:]] = seen_rules.get(k[6:], 0) + v
         rs = _srv("diag", res["out"], "c03_diag_" + cfg, exe, ["stride=%d" % (9 if tier == "quick" else 3)])
         c.add_harness(rs, cfg + " (published diagnostics)")
+        # implementation -> specification: the real trees judged by SplCheck (plus the repository's own programs)
+        nprog = sum(1 for l in open(res["out"], errors="replace") if l.startswith('<<"'))
+        rt, tres = validate_static_trace(res["out"], "c03_" + cfg, stride=max(1, nprog // (2500 if tier == "quick" else 20000)), files=(cfg == sets[0][0]))
+        c.add_tlc(tres, "TraceStatic on " + cfg)
+        c.add_harness(rt, cfg + " (implementation's trees judged by SplCheck)")
         os.remove(res["out"])
     procs, num = (8, 40) if tier == "quick" else (16, 400)
     for cfg in ("Sim_SplStatic_semfaults.cfg", "Sim_SplStatic_faults.cfg", "Sim_SplStatic_valid.cfg"):
@@ -680,6 +686,38 @@ def c03(tier):
                      "in the global declaration that lacks it; deletions that leave an equal neighbouring token are not faults"]
     c.exhaustive = True
     c.finish()
+
+
+REPO_PROGRAMS = ["spl_frontend/tests/programs/acker.spl", "spl_frontend/tests/programs/bigtest.spl",
+                 "spl_frontend/tests/programs/test1.spl", "spl_frontend/tests/programs/test2.spl"]
+
+
+def validate_static_trace(cases_out, tag, stride=1, files=False):
+    """Implementation -> specification: export the real trees / diagnostic kinds (fe export) and let TLC judge
+    them with SplCheck (TraceStatic).  Returns (harness-like result, tlc result)."""
+    nd = os.path.join(vlib.OUT, tag + ".export.ndjson")
+    extra = ["ndjson=" + nd, "stride=%d" % stride]
+    if files:
+        extra.append("files=" + ",".join(os.path.join(vlib.REPO, f) for f in REPO_PROGRAMS))
+    r = _fe("export", cases_out, tag + "_export", extra)
+    nlines = sum(1 for _ in open(nd))
+    res = vlib.tlc("TraceStatic", "TraceStatic.cfg", tag + "_tracestatic", workers=1, coverage=False, timeout=3000, heap="8g",
+                   env_extra={"TRACE": nd})
+    fails = []
+    with open(res["out"], errors="replace") as f:
+        for line in f:
+            m = re.match(r'^<<"REJECT", "(.*)">>', line.strip())
+            if m:
+                d = json.loads(m.group(1).replace('\\"', '"').replace("\\\\", "\\"))
+                fails.append({"what": "tree-judgement-differs", "site": "", "case": None,
+                              "detail": {"line": d["line"], "name": d["name"], "implementation_reports": d["reported"],
+                                         "SplCheck_on_the_implementation's_tree": d["judged"], "tree_well_formed": d["wellformed"],
+                                         "trace_file": nd}})
+    if res["distinct"] != nlines + 1:
+        raise ToolError("TraceStatic consumed %d of %d lines" % (res["distinct"] - 1, nlines))
+    out = {"cases": nlines, "evaluations": nlines, "nontrivial": nlines, "nfail": len(fails) + r["nfail"], "failures": fails[:200] + r["failures"],
+           "counters": dict(r.get("counters", {})), "samples": []}
+    return out, res
 
 
 # ---------------------------------------------------------------------------
